@@ -78,7 +78,7 @@ func Applicable(op string, n Node) bool {
 		return n.Shape != "null"
 	case "zero-length":
 		return (isBytes && n.Len > 0) || ((n.Shape == "array" || n.Shape == "map" || n.Shape == "text") && n.Len > 0)
-	case "array-remove-last", "array-dup-last", "array-grow":
+	case "array-remove-last", "array-dup-last", "array-dup-elem", "array-grow":
 		return n.Shape == "array" && n.Len > 0
 	case "blob-prefix-huge", "blob-prefix-zero", "blob-truncate":
 		return n.Shape == "blob"
@@ -193,7 +193,7 @@ func Apply(s *sim.Source, tree interface{}, n Node, op string, bank []BankEntry)
 			return set("")
 		}
 		return set([]byte{})
-	case "array-remove-last", "array-dup-last", "array-grow":
+	case "array-remove-last", "array-dup-last", "array-dup-elem", "array-grow":
 		arr := cur.([]interface{})
 		var na []interface{}
 		switch op {
@@ -201,6 +201,9 @@ func Apply(s *sim.Source, tree interface{}, n Node, op string, bank []BankEntry)
 			na = append([]interface{}{}, arr[:len(arr)-1]...)
 		case "array-dup-last":
 			na = append(append([]interface{}{}, arr...), Clone(arr[len(arr)-1]))
+		case "array-dup-elem":
+			// any one element a second time (appended, so that the copy is the later occurrence)
+			na = append(append([]interface{}{}, arr...), Clone(arr[s.Draw(len(arr), "dup-elem")]))
 		case "array-grow":
 			na = append([]interface{}{}, arr...)
 			for i := 0; i < 5000; i++ {
